@@ -213,6 +213,7 @@ type searchNode struct {
 	pt     Point
 	st     *factState
 	parent *searchNode
+	pred   *ssa.BasicBlock // block the path arrived from (nil at the start)
 }
 
 // Search looks for a path from `from`; it returns the witness (list of
@@ -227,7 +228,13 @@ func (q *Query) Search(from Point) []Point {
 	for len(stack) > 0 {
 		n := stack[len(stack)-1]
 		stack = stack[:len(stack)-1]
-		key := fmt.Sprintf("%d.%d|%s", n.pt.B.Index, n.pt.I, n.st.String())
+		predIdx := -1
+		if n.pred != nil && n.pt.I == 0 && len(n.pt.B.Instrs) > 0 {
+			if _, isPhi := n.pt.B.Instrs[0].(*ssa.Phi); isPhi {
+				predIdx = n.pred.Index
+			}
+		}
+		key := fmt.Sprintf("%d.%d.%d|%s", n.pt.B.Index, n.pt.I, predIdx, n.st.String())
 		if visited[key] {
 			continue
 		}
@@ -235,6 +242,7 @@ func (q *Query) Search(from Point) []Point {
 
 		b := n.pt.B
 		blocked := false
+		cur := n.st
 		for i := n.pt.I; i < len(b.Instrs); i++ {
 			in := b.Instrs[i]
 			if q.Target != nil && q.Target(in) {
@@ -244,6 +252,12 @@ func (q *Query) Search(from Point) []Point {
 				blocked = true
 				break
 			}
+			if q.Facts {
+				cur = killFacts(cur, in)
+			}
+		}
+		if cur != n.st {
+			n = &searchNode{pt: n.pt, st: cur, parent: n.parent, pred: n.pred}
 		}
 		if blocked {
 			continue
@@ -263,6 +277,18 @@ func (q *Query) Search(from Point) []Point {
 					}
 				}
 				if q.Facts {
+					if sl, pre, ok := rangeHeader(ifi); ok {
+						k := "len:" + AP(sl)
+						feasible := true
+						if want { // body entered: the slice is not empty
+							st2, feasible = n.st.apply(k, "0", false, nil)
+						} else if n.pred == pre { // left before the first iteration: empty
+							st2, feasible = n.st.apply(k, "0", true, nil)
+						}
+						if !feasible {
+							continue
+						}
+					}
 					if x, c, eq, ok := CondAtom(ifi.Cond); ok {
 						k := ValueKey(x)
 						var enumAll []string
@@ -270,7 +296,7 @@ func (q *Query) Search(from Point) []Point {
 							enumAll = EnumConstants(x.Type())
 						}
 						var feasible bool
-						st2, feasible = n.st.apply(k, ConstKey(c), eq == want, enumAll)
+						st2, feasible = st2.apply(k, ConstKey(c), eq == want, enumAll)
 						if !feasible {
 							continue
 						}
@@ -281,9 +307,9 @@ func (q *Query) Search(from Point) []Point {
 				continue
 			}
 			if q.TargetEdge != nil && q.TargetEdge(b, si) {
-				return witness(&searchNode{pt: Point{succ, 0}, st: st2, parent: n}, Point{succ, 0})
+				return witness(&searchNode{pt: Point{succ, 0}, st: st2, parent: n, pred: b}, Point{succ, 0})
 			}
-			stack = append(stack, &searchNode{pt: Point{succ, 0}, st: st2, parent: n})
+			stack = append(stack, &searchNode{pt: Point{succ, 0}, st: st2, parent: n, pred: b})
 		}
 	}
 	return nil
@@ -372,7 +398,7 @@ func IsSuccessReturn(r *ssa.Return) bool {
 	if ei < 0 {
 		return true
 	}
-	return mayBeNil(r.Results[ei], map[ssa.Value]bool{})
+	return !IsErrorReturn(r)
 }
 
 func mayBeNil(v ssa.Value, seen map[ssa.Value]bool) bool {
@@ -482,4 +508,121 @@ func EdgeCond(b *ssa.BasicBlock, succ int) (cond ssa.Value, onTrue bool) {
 		return nil, false
 	}
 	return ifi.Cond, succ == 0
+}
+
+// rangeHeader recognises the header of a range-over-slice loop:
+//   i = phi [pre: -1, ...]; j = i + 1; if j < len(S) goto body else done
+// and returns S and the pre-header block.
+func rangeHeader(ifi *ssa.If) (slice ssa.Value, pre *ssa.BasicBlock, ok bool) {
+	cmp, isB := ifi.Cond.(*ssa.BinOp)
+	if !isB || cmp.Op != token.LSS {
+		return nil, nil, false
+	}
+	add, isB := cmp.X.(*ssa.BinOp)
+	if !isB || add.Op != token.ADD {
+		return nil, nil, false
+	}
+	phi, isPhi := add.X.(*ssa.Phi)
+	if !isPhi || phi.Block() != ifi.Block() {
+		return nil, nil, false
+	}
+	call, isCall := cmp.Y.(*ssa.Call)
+	if !isCall {
+		return nil, nil, false
+	}
+	if bi, isBi := call.Call.Value.(*ssa.Builtin); !isBi || bi.Name() != "len" {
+		return nil, nil, false
+	}
+	for i, e := range phi.Edges {
+		if k, isC := e.(*ssa.Const); isC && k.Value != nil && k.Int64() == -1 {
+			pre = phi.Block().Preds[i]
+		}
+	}
+	if pre == nil {
+		return nil, nil, false
+	}
+	return call.Call.Args[0], pre, true
+}
+
+// RangeLoopOf returns, for an element load `S[i]` of a range-over-slice loop,
+// the loop header If, the slice and whether v is such an element.
+func RangeLoopOf(v ssa.Value) (hdr *ssa.If, slice ssa.Value, ok bool) {
+	u, isU := v.(*ssa.UnOp)
+	if !isU || u.Op != token.MUL {
+		return nil, nil, false
+	}
+	ia, isIA := u.X.(*ssa.IndexAddr)
+	if !isIA {
+		return nil, nil, false
+	}
+	add, isB := ia.Index.(*ssa.BinOp)
+	if !isB {
+		return nil, nil, false
+	}
+	phi, isPhi := add.X.(*ssa.Phi)
+	if !isPhi {
+		return nil, nil, false
+	}
+	hb := phi.Block()
+	ifi, isIf := hb.Instrs[len(hb.Instrs)-1].(*ssa.If)
+	if !isIf {
+		return nil, nil, false
+	}
+	sl, _, isR := rangeHeader(ifi)
+	if !isR {
+		return nil, nil, false
+	}
+	return ifi, sl, true
+}
+
+// killFacts drops facts about values that instruction `in` (re)defines:
+// element loads of range loops, map-range extractions, phis and stores.
+func killFacts(s *factState, in ssa.Instruction) *factState {
+	if len(s.eq) == 0 && len(s.neq) == 0 {
+		return s
+	}
+	var key string
+	switch x := in.(type) {
+	case *ssa.Store:
+		key = AP(x.Addr)
+	case *ssa.Phi:
+		key = "phi:" + x.Name()
+	case *ssa.UnOp:
+		if x.Op == token.MUL {
+			if _, isIA := x.X.(*ssa.IndexAddr); isIA {
+				key = AP(x)
+			}
+		}
+	case *ssa.Next:
+		key = AP(x)
+	}
+	if key == "" || strings.HasPrefix(key, "?") {
+		return s
+	}
+	hit := false
+	for k := range s.eq {
+		if APHasPrefix(k, key) {
+			hit = true
+		}
+	}
+	for k := range s.neq {
+		if APHasPrefix(k, key) {
+			hit = true
+		}
+	}
+	if !hit {
+		return s
+	}
+	n := s.clone()
+	for k := range n.eq {
+		if APHasPrefix(k, key) {
+			delete(n.eq, k)
+		}
+	}
+	for k := range n.neq {
+		if APHasPrefix(k, key) {
+			delete(n.neq, k)
+		}
+	}
+	return n
 }
